@@ -96,6 +96,18 @@ func (c *Ctx) Logf(format string, a ...any) {
 	}
 }
 
+// note appends an unhashed line to the kept event list.
+func (c *Ctx) note(s string) {
+	if len(c.head) < headCap {
+		c.head = append(c.head, s)
+	} else {
+		if len(c.tail) >= tailCap {
+			c.tail = c.tail[1:]
+		}
+		c.tail = append(c.tail, s)
+	}
+}
+
 func (c *Ctx) TraceHash() uint64 { return c.hash }
 
 func (c *Ctx) EventList() []string {
@@ -112,7 +124,11 @@ func (c *Ctx) Probe(name string) { c.Probes[name]++ }
 // Fail reports a property violation and ends the run.
 func (c *Ctx) Fail(class, key, format string, a ...any) {
 	d := fmt.Sprintf(format, a...)
-	c.Logf("VIOLATION %s %s: %s", class, key, d)
+	// class and key are part of the trace (and its hash); the free-text detail is kept for the
+	// replay file but not hashed (it may legitimately contain values such as fake-clock times
+	// that differ between the first execution and a re-execution later in the same bubble)
+	c.Logf("VIOLATION %s %s", class, key)
+	c.note("  detail: " + d)
 	panic(violationPanic{Violation{Class: class, Key: class + ":" + key, Detail: d}})
 }
 
